@@ -3,6 +3,9 @@
 import json, os
 HERE = os.path.dirname(os.path.abspath(__file__))
 CLAIMED = {
+ 'C17': ('other', 'Sequential isolation: inventory of mutable static storage in the core (exactly the interface list), the list is used only by the context-keyed lookup (verified on its own: a hit rests on the context comparison, a miss yields a zeroed record keyed by the context), and every getter/send effect in all 65 536 dispatch cells carries the caller context - so a trace depends only on that interface\'s frames. Concurrent isolation: lockset over the resolved call graph from every pthread_create start routine of the daemons that parse here; the unsynchronised list access in lltd_state_for_iface is a recorded known finding (any other shared mutable storage or unlocked access is still a violation). Memory-model subtleties beyond unsynchronised conflicting accesses are not decided.',
+         'clang AST, lltdsa engine; FreeBSD/SunOS/Win32/Darwin mains do not parse here; KNOWN_FINDINGS lists the g_iface_states race',
+         'static-storage inventory + origin check of port effects + lockset over the resolved call graph', '4 (C17)'),
  'C12': ('other', 'Decided on the non-testing build of the core: the send_hello slot has exactly one call site (automata_tick) and only the tick stores the last-transmit time (who-may-call / who-may-write over all parsed units); automata_tick interpreted from every RepeatBand state with table count, all-complete flag, deadlines, last transmit time and clock symbolic shows that a send implies a non-empty, not-all-complete table, is preceded by the failed suppression test (nothing sent yet, or >= 1000 ms since) and followed by storing now - so consecutive periodic Hellos are >= 1000 ms apart under every interleaving - and that an empty table silences and resets the enumerator. Not decided: the Darwin daemon wiring and the documented frame-processing flow (darwin-main.c does not parse here).',
          'clang AST, lltdsa engine, monotone clock > 0, last-transmit variable written only through the tick port',
          'who-may-call / who-may-write + abstract interpretation of automata_tick per RepeatBand state', '4 (C12)'),
